@@ -38,7 +38,14 @@ def showSnap (sep : String) (p : Snapshot Float) : String :=
 filter (`reset(); update(x)`: non-finite samples are ignored and leave 0.0, otherwise the value
 snaps to `x`) and `get_smooth_rtt_ms()` clamps at 0.0. -/
 def parseConn (t : String) : Option (ConnIn Float) :=
-  match t.splitOn ":" with
+  -- optional 6th field: the link's `connected` flag (0|1).  `tick_all` drives every link it is
+  -- handed whether or not it is registered (a re-registering link keeps its CC state), so the model
+  -- ignores the flag.
+  let fs := t.splitOn ":"
+  let fs := match fs with
+    | [id, r, b, n, bps, c] => if c == "0" || c == "1" then [id, r, b, n, bps] else []
+    | _ => fs
+  match fs with
   | [id, r, b, n, bps] =>
     match u64? id, f64? r, u64? b, i32? n, f64? bps with
     | some id, some r, some b, some n, some bps =>
